@@ -60,13 +60,21 @@ def sites_of(prog):
        stmt_end - the gap in front of the closing brace of a body or block (a statement could start here)
        assign - the gap after `:=`;   paren - the gap after `(` of a call / if / while / parenthesised expression
                 (detail 'expr-lhs': inside the index expression on the left-hand side of an assignment)
-       colon  - the gap after `:` of a parameter or variable declaration
+       colon  - a type position: the gap after `:` of a parameter or variable declaration, after `=` of a type declaration
+                (detail typedecl-eq) and after every `of` of an array type (details *-of)
        top    - the gap between global declarations / before the first / after the last one"""
     out = []
     p = 0
 
     def texpr_len(t):
         return len(splgen.fl_texpr(t))
+
+    def texpr_ofs(t, s, di, where):
+        """the gaps behind every `of` of the type expression that starts at token s"""
+        while t[0] != "named":
+            out.append(("colon", s + 4, s + 5, di, where + "-of"))
+            s += 5
+            t = t[2]
 
     def expr(e, di, p, lhs=False):
         k = e[0]
@@ -127,6 +135,8 @@ def sites_of(prog):
     for di, d in enumerate(prog):
         out.append(("top", p - 1 if p else None, p, di, ""))
         if d[0] == "type":
+            out.append(("colon", p + 2, p + 3, di, "typedecl-eq"))      # behind `=`: a type position like the one behind `:`
+            texpr_ofs(d[2], p + 3, di, "typedecl")
             p += 3 + texpr_len(d[2]) + 1
             continue
         p += 3
@@ -136,10 +146,12 @@ def sites_of(prog):
             if r:
                 p += 1
             out.append(("colon", p + 1, p + 2, di, "param"))
+            texpr_ofs(t, p + 2, di, "param")
             p += 2 + texpr_len(t)
         p += 2
         for n, t in d[3]:
             out.append(("colon", p + 2, p + 3, di, "var"))
+            texpr_ofs(t, p + 3, di, "var")
             p += 3 + texpr_len(t) + 1
         for s in d[4]:
             p = stmt(s, di, p, "body")
